@@ -140,6 +140,10 @@ func (t *tr) typ(e ast.Expr) string {
 				return t.needOpaque(p.Name + "_" + x.Sel.Name)
 			}
 		}
+	case *ast.StructType: // struct{}: the value of a set-like map
+		if x.Fields == nil || len(x.Fields.List) == 0 {
+			return "unit"
+		}
 	case *ast.ArrayType:
 		if x.Len == nil {
 			if el := t.typ(x.Elt); el != "" {
@@ -290,6 +294,8 @@ func (t *tr) zero(ty string) string {
 		return "0"
 	case ty == "bool":
 		return "false"
+	case ty == "unit":
+		return "tt"
 	case ty == "string":
 		return "\"\""
 	case strings.HasPrefix(ty, "list "), strings.HasPrefix(ty, "alist "), strings.HasPrefix(ty, "balist "):
